@@ -81,6 +81,10 @@ func ruleC10Panics(c *Ctx) {
 					}
 				}
 				construct := "panic:" + core.FuncName(fn) + "@" + panicText(x)
+				if nonStringKeyGuarded(x) {
+					c.R.OK(rule, construct, c.pos(x), "reached only for a map whose key type is not of kind String: not a representation of a JSON object (outside the stated domain)")
+					return
+				}
 				if subjParam == nil {
 					c.R.Bad(rule, construct, c.pos(x), "an explicit panic that is not part of a reflect-kind dispatch: it must be shown unreachable or replaced by an error")
 					return
@@ -150,8 +154,10 @@ func ruleC10Panics(c *Ctx) {
 			}
 		})
 	}
-	// call sites of partial helpers
-	for _, r := range reqs {
+	// call sites of partial helpers (a caller that merely forwards its own parameter passes the obligation on to its callers)
+	seenReq := map[string]bool{}
+	for qi := 0; qi < len(reqs); qi++ {
+		r := reqs[qi]
 		idx := -1
 		for k, p := range r.fn.Params {
 			if p == r.p {
@@ -170,6 +176,23 @@ func ruleC10Panics(c *Ctx) {
 					ks = c.closureArgKinds(fn, arg, i)
 				}
 				construct := fmt.Sprintf("helper-call:%s->%s", core.FuncName(fn), core.FuncName(r.fn))
+				if ks&r.bad != 0 && fn.Parent() == nil && c.P.OnlyStaticCallers(fn) {
+					// the argument is this function's own parameter: its callers decide the kind
+					var fwd *ssa.Parameter
+					srcs := traceSources(arg)
+					if len(srcs) == 1 {
+						fwd, _ = srcs[0].(*ssa.Parameter)
+					}
+					if fwd != nil && fwd.Parent() == fn {
+						key := core.FuncName(fn) + "#" + fwd.Name() + "#" + (ks & r.bad).String()
+						if !seenReq[key] && len(reqs) < 64 {
+							seenReq[key] = true
+							reqs = append(reqs, req{fn, fwd, ks & r.bad, r.pos})
+						}
+						c.R.OK(rule, construct, c.pos(i), fmt.Sprintf("forwards its own parameter %s (kinds %s here); every call site of %s is checked in turn", fwd.Name(), ks, core.FuncName(fn)))
+						return
+					}
+				}
 				c.R.Check(ks&r.bad == 0, rule, construct, c.pos(i), fmt.Sprintf("called with kinds %s, for which the helper does not panic", ks), fmt.Sprintf("%s panics (at %s) for kinds %s and is called here with a value whose kind can be %s", core.FuncName(r.fn), r.pos, r.bad, ks&r.bad))
 			})
 		}
@@ -1009,4 +1032,30 @@ func freeVarBindsParameter(fv *ssa.FreeVar) bool {
 		}
 	})
 	return res
+}
+
+// nonStringKeyGuarded: the instruction executes only when `T.Key().Kind() != reflect.String` holds for some map type T.
+func nonStringKeyGuarded(i ssa.Instruction) bool {
+	for _, g := range guardsOf(i) {
+		bo, ok := g.Cond.(*ssa.BinOp)
+		if !ok || !((bo.Op == token.NEQ && g.Pol) || (bo.Op == token.EQL && !g.Pol)) {
+			continue
+		}
+		for _, pair := range [][2]ssa.Value{{bo.X, bo.Y}, {bo.Y, bo.X}} {
+			kc, ok := pair[0].(*ssa.Call)
+			if !ok || !kc.Call.IsInvoke() || kc.Call.Method.Name() != "Kind" {
+				continue
+			}
+			key, ok := kc.Call.Value.(*ssa.Call)
+			if !ok || !key.Call.IsInvoke() || key.Call.Method.Name() != "Key" {
+				continue
+			}
+			if k, ok := pair[1].(*ssa.Const); ok {
+				if v, ok := constInt(k); ok && v == int64(kString) {
+					return true
+				}
+			}
+		}
+	}
+	return false
 }
